@@ -150,7 +150,11 @@ type qSpec struct {
 	// every record and look at them after the stream has ended (the producer has moved
 	// on long ago), "prompt" = compare every record the moment it is received,
 	// "slow" = like buffer, with a pause after every received record.
-	Consume string `json:"consume,omitempty"`
+	// "stall" = receive StallAfter records, then do nothing for StallMs (far longer than
+	// the executors' send timeout, so the producer may give up), then drain and buffer.
+	Consume    string `json:"consume,omitempty"`
+	StallAfter int    `json:"stall_after,omitempty"`
+	StallMs    int    `json:"stall_ms,omitempty"`
 }
 
 // cond is a node of the condition tree.
